@@ -511,6 +511,8 @@ def recipe_traits(recipe: dict) -> dict:
     """Coarse traits used for violation shapes and reporting."""
     if recipe["kind"] == "corpus":
         return {"path": "corpus", "coloured": None, "grouped": None, "ncols": [], "file": recipe["file"]}
+    if recipe["kind"] == "sized":
+        return {"path": "sized", "coloured": False, "grouped": False, "ncols": [], "target_len": recipe["target_len"]}
     cols = _uses_colour(recipe)
     return {
         "path": recipe["kind"],
@@ -530,6 +532,40 @@ def _uses_colour(recipe) -> bool:
 # --------------------------------------------------------------------------
 
 _PL_TYPES = {"str": "Utf8", "int": "Int64", "float": "Float64", "bool": "Boolean", "date": "Date"}
+
+
+def build_sized(recipe: dict, figdir: str):
+    """A figure document whose rtf_encode() output has EXACTLY recipe['target_len'] characters and contains a
+    few non-ASCII (Latin-1) characters, so that character count and UTF-8 byte count differ: chunked or
+    length-limited writers show at buffer boundaries (4 KiB ... 2 MiB)."""
+    import rtflite
+
+    want = recipe["target_len"]
+    latin = "Caf\u00e9 cr\u00e8me na\u00efve \u00b5g \u00b0C \u00a9"
+
+    def make(nbytes: int, pad: int):
+        p = os.path.join(figdir, f"sized_{want}_{nbytes}.png")
+        with open(p, "wb") as fh:
+            fh.write(figure_bytes({"fmt": "png", "w": 64, "h": 48, "seed": 5})[:200] + b"\x55" * max(0, nbytes))
+        return rtflite.RTFDocument(rtf_figure=rtflite.RTFFigure(figures=[p], fig_width=3.0, fig_height=2.0),
+                                   rtf_title=rtflite.RTFTitle(text=[latin + " " * pad], text_convert=[False]))
+
+    n = max(0, int((want - 1200) / 2.026))
+    doc = make(n, 0)
+    for _ in range(6):
+        cur = len(doc.rtf_encode())
+        d = want - cur
+        if d == 0:
+            return doc
+        if 0 < d <= 4000:
+            doc = make(n, d)
+            if len(doc.rtf_encode()) == want:
+                return doc
+            n -= 20
+        else:
+            n = max(0, n + int(d / 2.026) - (10 if d > 0 else -10))
+        doc = make(n, 0)
+    return doc  # best effort: close to the boundary even if not exact
 
 
 def build_frame(spec: dict):
@@ -694,6 +730,8 @@ def build(recipe: dict, pool: Pool | None, share: dict | None, figdir: str):
 
     pool = pool or Pool()
     share = share or {}
+    if recipe["kind"] == "sized":
+        return build_sized(recipe, figdir), []
     if recipe["kind"] == "corpus":
         from . import corpus
 
